@@ -39,13 +39,26 @@ PROP = {
         {"name": "c01_chain", "src": "c01_hash.cpp", "flags": ["-DVF_PART=0"]},
         {"name": "c01_old", "src": "c01_hash.cpp", "flags": ["-DVF_PART=1"]},
         {"name": "c01_open", "src": "c01_hash.cpp", "flags": ["-DVF_PART=2"]},
+        # configuration corners: LimP<7>/<15> with pointer state (DivBySmall general branch), pools with one block per buffer
+        {"name": "c01_cfg", "src": "c01_hash.cpp", "flags": ["-DVF_PART=3"]},
+        # the LimP4 instantiations with 48- / 32-bit pointer states (32: every allocation from a MAP_32BIT arena); the global macro is
+        # needed because momo ignores a manager's own ptrUsefulBitCount (observation O3, harness/common/verif_ptrbits.h)
+        {"name": "c01_chain_p48", "src": "c01_hash.cpp", "flags": ["-DVF_PART=0", "-DVF_PTRBITS=48", "-DMOMO_MEM_MANAGER_PTR_USEFUL_BIT_COUNT=48"]},
+        {"name": "c01_chain_p32", "src": "c01_hash.cpp", "flags": ["-DVF_PART=0", "-DVF_PTRBITS=32", "-DMOMO_MEM_MANAGER_PTR_USEFUL_BIT_COUNT=32"]},
     ],
     "rule": ("random histories (insert, find, remove by key / predicate, reserve, clear with and without shrink, extract + re-insert, copy, move, "
              "swap, merge; 260 ops quick / 1200 thorough per run; 10 runs quick / 36 thorough per instantiation, three times as many for slow-hash traits, whose buckets keep hash bits that are reused on growth) over 28 instantiations = 12 bucket types x item kinds (4/16/40-byte trivially "
              "relocatable, nothrow-move, copy-only) x set/map x fast/slow hash, hash family drawn from {constant, low 4 bits, high byte, identity, "
              "multiplicative, two clusters}, key ranges 12..600 so that tables cross several growth thresholds; after every op the model must print "
              "the same result, count, capacity, generations and layout checksum; every 16 ops the property-level oracle (std::map) checks every "
-             "key, absent keys and the traversal. distinct_nontrivial = number of distinct (instantiation, hash family, run) histories."),
+             "key, absent keys and the traversal. distinct_nontrivial = number of distinct (instantiation, hash family, run) histories. "
+             "Added for coverage: c01_cfg = 12 more instantiations (HashBucketLimP<7> with 8-/16-byte items, a map, a copy-only 8-byte key, LimP<15> with a "
+             "16-byte item of alignment 16: pointer+count words decoded with divisors up to 16; LimP / LimP1 / LimP4 over MemPoolParams<1>: bucket arrays "
+             "given back one by one on Clear); c01_chain_p48 / _p32 = the eight LimP4 instantiations with 6- and 4-byte pointer states (32: arena below 4 GB). "
+             "In every history: Reserve of 2^20 more than the largest legal table holds and an insertion into a table without buckets whose traits ask for "
+             "2^(max+1) start buckets must throw std::length_error and leave the layout unchanged (the model predicts E:length from maxlog = "
+             "log2 of HashSetBuckets::maxBucketCount); every 16 ops and after every op with >= 2 generations GetBucketCount / GetBucketBounds(i) / "
+             "GetBucketIndex(key) are compared with a direct walk over all generations (property level)."),
     "runtime_only": ["leak / double-free ledger of the memory manager and element counters at the end of every history (C03 piggyback)"],
     "not_modelled": ["short-hash bytes and hash-probe bytes of LimP4 / Open2N2 / One inside the table model (byte level: C12; OpenN1 / Open8 byte level: C01_*_bytes, C13_open*)", "in-bucket scan order of Find inside the table model (irrelevant while keys are distinct; at byte level C13_openbytes_find_every_order covers every order)",
                      "ResetKey, Add(position) variants (forwarders to the modelled pvAdd)"],
